@@ -173,6 +173,7 @@ type Obs struct {
 	StepHook  []string
 	Listening []string
 	UDPSocks  []string
+	TmpDir    string
 }
 
 // ---------------------------------------------------------------------------------------------
@@ -271,6 +272,7 @@ func (w *World) bootServer(cfg string) error {
 	ipp.VerifResetModel()
 	dir := w.T.TempDir()
 	w.TmpDir = dir
+	w.Obs.TmpDir = dir
 	if w.PreBoot != nil {
 		w.PreBoot(dir)
 	}
